@@ -588,7 +588,6 @@ def collapse_all(
             return  # No more instances, success!
         for inst_ent in instances:
             inst = Instance.from_entity(inst_ent)
-            inst_ent.remove()
             LOGGER.debug('Collapse {} @ {}', inst.filename, inst.pos)
             if not inst.name:
                 auto_inst_count += 1
@@ -599,6 +598,8 @@ def collapse_all(
                 props = fsys.read_kv1(inst.filename)
                 # except FileNotFoundError - fail.
                 file = file_cache[inst.filename] = InstanceFile(VMF.parse(props, preserve_ids=True))
+            # Only remove the entity once its file is known to exist, so a failure leaves it in the map.
+            inst_ent.remove()
             collapse_one(vmf, inst, file, engine_cache=fgd_cache)
 
     # Exhausted the range, we must have too much recursion in the instances.
